@@ -6,6 +6,7 @@ block survive (as repaired by the commit `fix: deduplicate_select_items compares
 import PrqlModel.Model.Projection
 import PrqlModel.Model.Wildcards
 import PrqlModel.Lemmas.Wildcards
+import PrqlModel.Lemmas.Anchor
 namespace Props.C05
 open Model.Projection
 
@@ -188,5 +189,41 @@ theorem wildcards_duplicate_star_emitted_counterexample :
     ¬ (shownEmit exEnv2 (run exEnv2 [0, 1, 0, 1]).2 (run exEnv2 [0, 1, 0, 1]).1).Perm [0, 1, 0, 1] := by decide
 
 end Wildcards
+
+/-! ## the Select of the final SELECT is the requested frame (mirror of `extract_atomic`, sql/pq/anchor.rs)
+
+`Model.Anchor.extractAtomic` mirrors `extract_atomic` as a whole - `split_off_back`, `anchor_split` and the *limiting SELECT* that
+is put around a block whose Select had to be widened by columns other clauses need (sort keys ..) - and is tied to the code by
+replaying every recorded call (tools/anchortrace.py: the returned pipeline must agree, `determine_select_columns` must agree).
+Whatever the pipeline and wherever it is cut: the block that is compiled to the SELECT of this relation selects exactly the
+requested columns, so helper columns never reach the result and no requested column is dropped or duplicated. -/
+section ExtractAtomic
+open Model.Anchor Lemmas.Anchor
+
+/-- **extract_atomic_selects_exactly_the_frame.** For every pipeline `p`, every list `out` of requested output columns
+(`determine_select_columns`; repetitions allowed) and every state of the id generator above the ids in play: the Select
+of the atomic pipeline that `extract_atomic` returns is the requested list seen through the redirects - the same
+number of columns, in the same order. -/
+theorem extract_atomic_selects_exactly_the_frame (decls : List Comp) (next : CId) (p : List Tr) (out : List CId)
+    (hout : ∀ b ∈ out, b < next) (hsel : ∀ a ∈ (splitOffBack decls p out).select, a < next) :
+    selectOf (extractAtomic decls next p out).atomic = some (extractAtomic decls next p out).output ∧
+    (extractAtomic decls next p out).output.length = out.length :=
+  extract_selects_output_fresh decls next p out hout hsel
+
+/-- the widened Select of a block is the requested list followed by columns that are not requested: these are what the
+limiting SELECT removes -/
+theorem widened_select_shape (decls : List Comp) (p : List Tr) (out : List CId) :
+    ∃ ext, (splitOffBack decls p out).select = out ++ ext ∧ ∀ c ∈ ext, c ∉ out :=
+  splitOffBack_select_shape decls p out
+
+/-- non-vacuity: `from t | sort b | select {a}` (a, b = columns 0, 1): the sort key widens the Select to `[0, 1]`, the limiting
+SELECT over a new relation (ids from 10) selects the single requested column -/
+example : (∀ b ∈ [0], b < 10) ∧ (∀ a ∈ (splitOffBack [] [.from [0, 1], .sort [1], .select [0]] [0]).select, a < 10) ∧
+    (splitOffBack [] [.from [0, 1], .sort [1], .select [0]] [0]).select = [0, 1] ∧
+    (extractAtomic [] 10 [.from [0, 1], .sort [1], .select [0]] [0]).atomic = [.from [10, 11], .select [10]] ∧
+    (extractAtomic [] 10 [.from [0, 1], .sort [1], .select [0]] [0]).stashed =
+      [[.select [0, 1], .from [0, 1], .sort [1], .select [0, 1]]] := by decide
+
+end ExtractAtomic
 
 end Props.C05
